@@ -6,6 +6,7 @@
 #include <manif/algorithms/decasteljau.h>
 #include <gmpxx.h>
 #include "ctor.h"
+#include "views.h"
 
 template<class G> struct GroupRunner2 {
   using S = typename G::Scalar;
@@ -71,6 +72,7 @@ template<class G> struct GroupRunner2 {
       for(auto& p: curve) o.mat(p.coeffs());
     }
     else if(op=="Ctor"){ return run_ctor<G>(c,o); }
+    else if(op=="View"){ return run_view<G>(c,o); }
     else if(op=="Cast"){ G X=mkG(c.args[0]); G r = X.template cast<S>(); o.mat(r.coeffs()); }
     else return false;
     return true;
